@@ -2,6 +2,7 @@
 from mireval import Evaluator, Unsupported, fmt_term, mk_int
 from models import Models
 from facts import loc
+from common import at_log_levels
 from p_msgmap import norm, norm_cons, known_val
 
 ST = "flipdot_core::sign_type::SignType"
@@ -71,6 +72,16 @@ def extract_tables(prog, chk):
 
 
 def run_c19(chk, prog):
+    # the virtual sign's derivation is evaluated on the success edge of every assertion and with formatting as an opaque step:
+    # that digesting a block does not panic in the sign-type code (hand-written fmt impls included) is C12's inventory, restricted
+    # here to the constructs in the sign-type code
+    import p_c12
+    chk.include("C19.total", p_c12.run_c12, prog, keep_ob=lambda r, d, w: "sign_type" in w or "SignType" in d)
+    run_c19_tables(chk, prog)
+
+
+@at_log_levels("flipdot_core", "flipdot_testing")
+def run_c19_tables(chk, prog):
     chk.notes.append("A1: SignType::{to_bytes, dimensions, from_bytes} are extracted as tables (constants as evaluated by rustc); their mutual consistency and the "
                      "field relations inside each block are checked for all 11 types; the virtual sign's configuration handler is evaluated on each block; "
                      "from_bytes is shown to reject every length other than 16 before indexing and to accept exactly the 11 (family, id) pairs.")
